@@ -513,3 +513,39 @@ def start_deadline_covers_every_pending_event(ctx):
     ctx.check(over and mx and loads <= {'events'}, f'{f.qualname}:maximum over the pending events', f.node, 'max(event.deadline for the events in self.events)',
               f'deadline() reads self.{sorted(loads)} and ' + ('does not take the maximum over self.events' if not (over and mx) else 'other state') +
               ': the wait of Server._processCfg can end before the poll thread with the latest deadline finished its first round', f)
+
+
+@rule('C15.R8', min_instances=1)
+def hosting_a_polled_module_creates_the_wake_up_event(ctx):
+    """initModule: a module that registers itself in the polledModules of a host (itself, or its io module) makes the host run
+    a poll thread; that thread waits on host.triggerPoll and stopPollThread() sets it at shutdown - so on every path that
+    registers, the host's triggerPoll is created (or was found to exist).  Otherwise a communicator that does not poll and has
+    nothing to write hosts a thread without event: the thread dies in its first wait and shutdown_modules ends with
+    AttributeError in stopPollThread before any module is shut down"""
+    m = ctx.m
+    f = m.method(roles.MODULE, 'initModule', inherited=False)
+    ctx.analysed(f)
+    cfg = CFG(f.node, m, f.module)
+    regs = [c for c in calls_in(f.node) if call_attr(c) in ('append', 'add') and isinstance(c.func.value, ast.Attribute) and c.func.value.attr == 'polledModules']
+    if not regs:
+        raise AnchorMissing('registration in polledModules not found in initModule')
+
+    def alternatives(e):
+        r = resolved(e, f.node)
+        return {src(x) for x in ([r.body, r.orelse] if isinstance(r, ast.IfExp) else [r])} | {src(e)}
+    for c in regs:
+        host = c.func.value.value
+        alts = alternatives(host)
+        stores = [i for t, v, st in attr_stores(f.node) if t.attr == 'triggerPoll' and (alternatives(t.value) & alts) and
+                  isinstance(v, ast.Call) and 'Event' in src(v.func) for i in cfg.node_of(st)]
+        rid = list(cfg.node_of(c))
+        # paths registration -> end without creating the event are fine only where a test found the event to exist
+        after = paths_need_fact(cfg, rid, [cfg.exit], lambda a, tv: tv and isinstance(a, ast.Attribute) and a.attr == 'triggerPoll' and src(a.value) in alts,
+                                avoid=stores)
+        # ... or the event was created before the registration on every path to it
+        before = bool(stores) and cfg.all_paths_pass([cfg.entry], rid, stores, exc=False)
+        ctx.check(after or before, f'{f.qualname}:the host of a polled module has its wake-up event', c,
+                  f'every path registering in `{src(c.func.value)}` creates `{src(host)}.triggerPoll` or found it set',
+                  f'`{src(c)}` makes `{src(host)}` run a poll thread, but a path leaves initModule without `{src(host)}.triggerPoll` having been created or '
+                  'tested: a communicator with enablePoll = False and nothing to write keeps triggerPoll = None - its poll thread dies in the first wait and '
+                  'stopPollThread() raises AttributeError at shutdown, before any module is shut down', f)
